@@ -59,7 +59,7 @@ type ResLine struct {
 	Sample     *Case          `json:"sample,omitempty"`
 }
 
-const watchdogLimit = 180 * time.Second
+const watchdogLimit = 60 * time.Second
 
 func workerA(specPath string) {
 	debug.SetMaxStack(2 << 20) // walks here are at most 5 levels deep; a runaway recursion overflows quickly and its traceback stays cheap
